@@ -28,7 +28,7 @@
 (***************************************************************************)
 EXTENDS FmtDoc, Integers, Json
 
-CONSTANTS ProgSet,     \* "exec" | "units"
+CONSTANTS ProgSet,     \* "exec" | "units" | "annot"
           MaxDecor,    \* comments per decorated variant (1 or 2)
           Layouts      \* subset of {0, 1}
 
@@ -67,7 +67,23 @@ Segments == {
   \* mechanism: the simulator knowingly does not implement goto (the arms are commented out in
   \* interpreter/statement.go ProcessBlockStatement), so the statement in between runs
   Seg("goto", <<Goto("end"), Log("skipped"), Label("end:", "end:"), Log("after")>>, <<"skipped", "after">>),
-  Seg("esi", <<>>, <<>>)
+  Seg("esi", <<>>, <<>>),
+  \* builtins whose parameters are identifiers (ID type: not evaluated, looked up by name) and identifier-valued variables
+  Seg("header", <<FCall("header.set", <<Id("req"), Str("X-H", "\"X-H\""), Str("v", "\"v\"")>>),
+                  LogE(FCallX("header.get", <<Id("req"), Str("X-H", "\"X-H\"")>>)),
+                  FCall("header.unset", <<Id("req"), Str("X-H", "\"X-H\"")>>),
+                  If(Prefix("!", Id("req.http.X-H")), <<Log("hu")>>, <<>>, NoneObj),
+                  FCall("header.filter_except", <<Id("req"), Str("A", "\"A\"")>>), LogE(idA)>>, <<"v", "hu", "a">>),
+  Seg("collect", <<FCall("std.collect", <<idA>>), If(Infix(">", FCallX("std.count", <<Id("req.headers")>>), Int("0", "0")), <<Log("cnt")>>, <<>>, NoneObj)>>,
+      <<"cnt">>),
+  Seg("ratelimit", <<If(Infix(">", FCallX("ratelimit.ratecounter_increment", <<Id("rc"), Str("k", "\"k\""), Int("1", "1")>>), Int("0", "0")), <<Log("rc")>>, <<>>, NoneObj),
+                     FCall("ratelimit.penaltybox_add", <<Id("pb"), Str("k", "\"k\""), RTime("10s")>>),
+                     If(FCallX("ratelimit.penaltybox_has", <<Id("pb"), Str("k", "\"k\"")>>), <<Log("pb")>>, <<>>, Else(<<Log("nopb")>>))>>, <<"rc", "pb">>),
+  Seg("backend-id", <<SetS(Id("req.backend"), "=", Id("example")), LogE(Id("req.backend"))>>, <<"example">>),
+  Seg("crypto", <<LogE(FCallX("crypto.encrypt_hex", <<Id("aes128"), Id("cbc"), Id("nopad"), Str("k", "\"000102030405060708090a0b0c0d0e0f\""),
+                                                      Str("iv", "\"000102030405060708090a0b0c0d0e0f\""), Str("t", "\"00112233445566778899aabbccddeeff\"")>>))>>,
+      <<"76d0627da1d290436e21a4af7fca94b7">>),
+  Seg("regsub", <<SetS(idB, "=", FCallX("regsub", <<Cat(sA, idA, TRUE), Str("^a", "\"^a\""), Str("z", "\"z\"")>>)), LogE(idB)>>, <<"za">>)
 }
 
 (***************************************************************************)
@@ -98,10 +114,11 @@ Exec(seg, t) ==
                                   Prop("bprop", "ssl", Bool(FALSE))>>),
             Acl("internal", <<Cidr(FALSE, "10.0.0.0", "8"), Cidr(TRUE, "10.1.0.0", "16")>>),
             Table("t1", "STRING", <<TProp(sA, sB, TRUE)>>),
+            Empty("ratecounter", "rc"), Empty("penaltybox", "pb"),
             Sub("helper", <<>>, "", <<Log("h")>>),
             SubOf("recv", seg.body \o TermBody(t))>>
            \o [i \in 1..Len(Others) |-> SubOf(Others[i], <<>>)],
-   exec |-> TRUE, nd |-> 5,
+   exec |-> TRUE, nd |-> 7, annot |-> FALSE,
    \* Sem: the log lines of the request (a restart runs the segment twice)
    logs |-> LET once == <<"@recv">> \o seg.logs
                 rest == [i \in 1..(Len(PathOf(t)) - (IF t = "restart" THEN 2 ELSE 1)) |-> "@" \o PathOf(t)[i + (IF t = "restart" THEN 2 ELSE 1)]]
@@ -122,7 +139,7 @@ Late(name, recvBody, extras, logs, path) ==
                SubOf("recv", recvBody)>>
               \o [i \in DOMAIN extras |-> SubOf(extras[i][1], extras[i][2])]
               \o [i \in DOMAIN rest |-> SubOf(rest[i], <<>>)],
-      exec |-> TRUE, nd |-> 5 + Len(extras), logs |-> logs, path |-> path]
+      exec |-> TRUE, nd |-> 5 + Len(extras), annot |-> FALSE, logs |-> logs, path |-> path]
 idE == Id("obj.http.X-E")   idZ == Id("resp.http.Z")   idF == Id("beresp.http.F")
 LateProgs == {
   Late("late/error", <<ErrorS(Int("701", "701"), Str("R", "\"R\""))>>,
@@ -139,14 +156,68 @@ LateProgs == {
        <<"@recv", "@hash", "@pass", "@fetch", "ok", "@deliver", "f", "gone", "@log", "s200">>, <<"recv", "hash", "pass", "fetch", "deliver", "log">>)
 }
 
+\* a hash director over three backends (all pointing at the stub): which backend serves the request must not depend on
+\* comments in the backend declarations.  No prediction (the choice is a hash the specification does not model).
+StubBackend(n) == Backend(n, <<Prop("bprop", "host", Str("__HOST__", "\"__HOST__\"")), Prop("bprop", "port", Str("__PORT__", "\"__PORT__\"")),
+                               Prop("bprop", "ssl", Bool(FALSE))>>)
+DirProg(dtype) ==
+  [name |-> "director/" \o dtype,
+   ds |-> <<StubBackend("b1"), StubBackend("b2"), StubBackend("b3"),
+            Director("d1", dtype, <<Prop("dprop", "quorum", Postfix("%", Int("20", "20"))),
+                                    DBackend(<<DProp("backend", Id("b1")), DProp("weight", Int("1", "1"))>>),
+                                    DBackend(<<DProp("backend", Id("b2")), DProp("weight", Int("1", "1"))>>),
+                                    DBackend(<<DProp("backend", Id("b3")), DProp("weight", Int("1", "1"))>>)>>),
+            SubOf("recv", <<SetS(Id("req.backend"), "=", Id("d1")), Return(Id("pass"), "paren")>>),
+            SubOf("fetch", <<LogE(Id("beresp.backend.name"))>>)>>
+           \o (LET rest == SelectSeq(Others, LAMBDA o : o # "fetch") IN [i \in DOMAIN rest |-> SubOf(rest[i], <<>>)]),
+   exec |-> TRUE, nd |-> 4, annot |-> FALSE, logs |-> <<>>, path |-> <<>>]
+
 ExecProgs ==
   {Exec(s, "fall") : s \in Segments} \cup {Exec(CHOOSE s \in Segments : s.name = "log", t) : t \in Terminals}
   \cup {Exec(CHOOSE s \in Segments : s.name = "if-else", t) : t \in {"pass", "restart"}}
   \cup LateProgs
+\* DirProg is not part of the enumeration: Interpreter.ServeHTTP dereferences nil for these programs (no health
+\* state for the director's backends in this harness), so the pair comparison would be vacuous.
 \* lint only: every statement and declaration kind of FmtDoc (most of them carry lint errors of their own:
 \* undefined variables and subroutines, type mismatches, missing macros - the "injected errors")
-UnitProgs == {[name |-> d.fam \o "/" \o d.focus, ds |-> d.ds, exec |-> FALSE, nd |-> Len(d.ds), logs |-> <<>>, path |-> <<>>] : d \in UnitDocs}
-Progs == IF ProgSet = "exec" THEN ExecProgs ELSE UnitProgs
+UnitProgs == {[name |-> d.fam \o "/" \o d.focus, ds |-> d.ds, exec |-> FALSE, nd |-> Len(d.ds), annot |-> FALSE, logs |-> <<>>, path |-> <<>>] : d \in UnitDocs}
+
+(***************************************************************************)
+(* Lint-only programs that CARRY annotations: falco-ignore-next-line,      *)
+(* falco-ignore (this line), falco-ignore-start / -end - with and without  *)
+(* rule lists, in the three marker styles - and @scope.  The annotation is *)
+(* part of the program (a word of the template, on a line of its own or at *)
+(* the end of the statement's line); the decoration is an ORDINARY comment *)
+(* at any gap, in particular between the annotation and its statement.     *)
+(* The diagnostics (those the annotation suppresses stay suppressed, the   *)
+(* others stay reported) must not change.                                  *)
+(***************************************************************************)
+Annot(text) == [a |-> [k |-> "annot", p_blank |-> FALSE], t |-> G("annot", "before", "lead", FALSE) \o W(text) \o NL]
+\* the statement followed, on its own line, by the annotation (no gap between `;` and the annotation: a line comment there
+\* would move the annotation to another line)
+ThisLine(st, text) == [a |-> st.a, t |-> SubSeq(st.t, 1, Len(st.t) - 2) \o W(text) \o NL]
+Bad  == SetS(idA, "=", Id("var.undef"))            \* two diagnostics: operator/assignment and an undefined variable
+Bad2 == SetS(idB, "=", FCallX("regsub", <<Id("req.url"), Id("req.http.pat"), Str("", "\"\"")>>))     \* regex pattern must be a literal
+AnnotBodies == <<
+  <<"next-line",       <<Annot("// falco-ignore-next-line"), Bad, Bad2>> >>,
+  <<"next-line-rules", <<Annot("// falco-ignore-next-line operator/assignment"), Bad, LogA>> >>,
+  <<"next-line-sharp", <<Annot("# falco-ignore-next-line"), Bad, Annot("/* falco-ignore-next-line */"), Bad2>> >>,
+  <<"this-line",       <<ThisLine(Bad, "// falco-ignore"), Bad2>> >>,
+  <<"this-line-rules", <<ThisLine(Bad, "// falco-ignore operator/assignment"), ThisLine(Bad2, "# falco-ignore")>> >>,
+  <<"start-end",       <<Annot("// falco-ignore-start"), Bad, Bad2, Annot("// falco-ignore-end"), Bad>> >>,
+  <<"start-end-rules", <<Annot("// falco-ignore-start operator/assignment"), Bad, LogA, Annot("// falco-ignore-end operator/assignment"), Bad>> >>,
+  <<"nested",          <<Annot("// falco-ignore-next-line"), If(Cmp, <<Bad>>, <<Elif(W("elsif"), "elsif", Mat, <<Bad2>>)>>, Else(<<Bad>>)), Bad>> >>,
+  <<"none",            <<Bad, Bad2>> >> >>
+AnnotProgs ==
+  {[name |-> "annot/" \o AnnotBodies[i][1],
+    ds |-> <<Sub("vcl_recv", <<>>, "", <<Annot("#FASTLY RECV")>> \o AnnotBodies[i][2])>>,
+    exec |-> FALSE, nd |-> 1, annot |-> TRUE, logs |-> <<>>, path |-> <<>>] : i \in DOMAIN AnnotBodies}
+  \cup {[name |-> "annot/scope",
+          ds |-> <<Annot("// @scope: deliver"), Sub("custom", <<>>, "", <<SetS(Id("resp.http.X"), "=", sA)>>),
+                   Annot("//@scope: recv, deliver"), Sub("custom2", <<>>, "", <<SetS(Id("req.http.X"), "=", sA), Bad>>),
+                   Annot("// falco-ignore-next-line"), Sub("custom3", <<>>, "", <<Bad>>)>>,
+          exec |-> FALSE, nd |-> 6, annot |-> TRUE, logs |-> <<>>, path |-> <<>>]}
+Progs == IF ProgSet = "exec" THEN ExecProgs ELSE IF ProgSet = "annot" THEN AnnotProgs ELSE UnitProgs
 
 Markers == {"#", "//", "/*"}
 ProgT(p) == CatT(p.ds)
@@ -175,5 +246,6 @@ Enc(p) == CASE p.t = "w" -> p.s
 \* one line per program: the template and every decoration TLC enumerates for it (the Decorate steps of the state graph)
 Emit == lay = -1 =>
   PrintT(<<"BEHAVIOUR", ToJson([name |-> prog.name, exec |-> prog.exec, toks |-> [i \in DOMAIN ProgT(prog) |-> Enc(ProgT(prog)[i])],
-                                 decors |-> Decors(prog), lays |-> Layouts, logs |-> prog.logs, path |-> prog.path])>>)
+                                 \* seeded line breaks would move an end-of-line annotation to another line
+                                 decors |-> Decors(prog), lays |-> IF prog.annot THEN {0} ELSE Layouts, logs |-> prog.logs, path |-> prog.path])>>)
 =============================================================================
